@@ -35,6 +35,11 @@ def generate(prop, rng, seed, index, tier):
     nitems = rng.randrange(1, 9 if big else 7)
     if typ == 'iterable':
         src['items'] = list(range(100, 100 + nitems))
+        if rng.random() < 0.25:
+            # None (and other falsy values) are items like any other
+            for k in range(nitems):
+                if rng.random() < 0.3:
+                    src['items'][k] = rng.choice([None, None, 0, ''])
         src['one_shot'] = rng.random() < 0.65
     elif typ == 'textfile':
         src['delimiter'] = '\n'
